@@ -46,9 +46,17 @@ func setup4(args ...string) (handler.Handler4, error) {
 			return Handler4, errors.New("expected a destination subnet, got: " + fields[0])
 		}
 
+		if ones, bits := route.Dest.Mask.Size(); route.Dest.IP.To4() == nil || bits != 8*net.IPv4len || ones < 0 {
+			// the classless static route option can only carry IPv4 destinations
+			return Handler4, errors.New("expected an IPv4 destination subnet, got: " + fields[0])
+		}
+
 		route.Router = net.ParseIP(fields[1])
 		if route.Router == nil {
 			return Handler4, errors.New("expected a gateway address, got: " + fields[1])
+		}
+		if route.Router.To4() == nil {
+			return Handler4, errors.New("expected an IPv4 gateway address, got: " + fields[1])
 		}
 
 		routes = append(routes, route)
